@@ -33,7 +33,7 @@ type C15Case struct {
 
 type C15Op struct {
 	Msg     int `json:"msg"`     // 0 create, 1 upgrade, 2 register relayers, 3 set rules, 4 update client
-	Signer  int `json:"signer"`  // 0 authority, 1 relayer registered for the chain, 2 relayer registered for another chain only, 3 plain user, 4 user signing a message that names the authority
+	Signer  int `json:"signer"`  // 0 authority, 1 relayer registered for the chain, 2 relayer registered for another chain only, 3 plain user, 4 user signing a message that names the authority, 5 authority but execution discarded, 6 the account registrations name
 	Name    int `json:"name"`    // chain name selector
 	Payload int `json:"payload"` // payload variant
 }
@@ -50,8 +50,8 @@ func genC15(t *rapid.T) C15Case {
 			Payload: rapid.SampledFrom([]int{0, 0, 1, 2, 3, 4}).Draw(t, "payload"),
 		}
 		// the same request from several signer classes, unprivileged ones first
-		signers := rapid.Permutation([]int{1, 2, 3, 4}).Draw(t, "signers")
-		k := rapid.IntRange(1, 3).Draw(t, "nsigners")
+		signers := rapid.Permutation([]int{1, 2, 3, 4, 5, 6}).Draw(t, "signers")
+		k := rapid.IntRange(1, 4).Draw(t, "nsigners")
 		for _, sg := range signers[:k] {
 			op := base
 			op.Signer = sg
@@ -92,6 +92,8 @@ func checkC15(c C15Case, col *Collector) outcome {
 			return a.Accounts[world.RelayerIdx]
 		case 2:
 			return a.Accounts[world.OutsiderIdx]
+		case 6:
+			return a.Accounts[1] // the account relayer registrations name
 		default:
 			return a.Accounts[0]
 		}
@@ -115,10 +117,13 @@ func checkC15(c C15Case, col *Collector) outcome {
 		if mod(op.Msg, 5) == 4 {
 			name = b.Name
 		}
-		signer := mod(op.Signer, 5)
+		signer := mod(op.Signer, 7)
+		// class 5: the authority's message is executed on a branch of the state that is then discarded (it is the
+		// first message of a proposal whose later message fails); for header updates class 5 is a plain account
+		discarded := signer == 5 && mod(op.Msg, 5) != 4
 		acc := signerAcc(signer)
 		authField := acc.Addr.String()
-		if signer == 0 || signer == 4 {
+		if signer == 0 || signer == 4 || discarded {
 			authField = authority
 		}
 		ctxNow := a.Ctx()
@@ -216,6 +221,9 @@ func checkC15(c C15Case, col *Collector) outcome {
 		} else {
 			wantEffect = signer == 0 && payloadValid
 		}
+		if discarded {
+			wantEffect = false
+		}
 		key := fmt.Sprintf("%d/%d/%d", mod(op.Msg, 5), mod(op.Name, len(c15Names)), mod(op.Payload, 5))
 		if seenSigners[key] == nil {
 			seenSigners[key] = map[int]bool{}
@@ -227,7 +235,7 @@ func checkC15(c C15Case, col *Collector) outcome {
 		hBefore := a.Height
 		var ok bool
 		var log string
-		if signer == 0 && !isUpdate {
+		if (signer == 0 || discarded) && !isUpdate {
 			// the authority is a module account: dispatch through the message router as x/gov does
 			ctx, write := a.Branch()
 			func() {
@@ -253,6 +261,12 @@ func checkC15(c C15Case, col *Collector) outcome {
 				}
 				ok = true
 			}()
+			if discarded {
+				if ok {
+					col.Label("executed-and-discarded")
+				}
+				ok, log = false, "executed on a discarded branch"
+			}
 			if ok {
 				write()
 			}
@@ -341,6 +355,6 @@ func trimStr(s string, n int) string {
 
 func TestC15(t *testing.T) {
 	runProp(t, "C15",
-		"case = 2-10 privileged operations on one chain of a two-chain world: MsgCreateClient (new name / existing client / invalid identifier; valid Tendermint client, mismatching consensus-state type, invalid client state), MsgUpgradeClient (existing / unknown client; same type or BSC client state for a Tendermint client), MsgRegisterRelayer (valid lists, invalid address, empty list), MsgSetRoutingRules (valid / malformed rules / the empty list), MsgUpdateClient with a genuinely valid header; signer = the governance authority (dispatched through the msg service router, as x/gov does), the relayer registered for that chain, an account registered as relayer for another chain only, a plain account, or a plain account signing a message that names the authority; oracle = the request takes effect (visible through the keeper getters: client state and type, relayer list, rule list, latest height) iff the signer is the authority (the registered relayer for updates) and the payload is valid; a refused request leaves the tibc store byte-identical and the stored client untouched; create never succeeds on an existing name; upgrade never changes the client type; non-trivial = the same (message, name, payload) submitted by >=2 signer classes with different expected outcomes",
+		"case = 2-10 privileged operations on one chain of a two-chain world: MsgCreateClient (new name / existing client / invalid identifier; valid Tendermint client, mismatching consensus-state type, invalid client state), MsgUpgradeClient (existing / unknown client; same type or BSC client state for a Tendermint client), MsgRegisterRelayer (valid lists, invalid address, empty list), MsgSetRoutingRules (valid / malformed rules / the empty list), MsgUpdateClient with a genuinely valid header; signer = the governance authority (dispatched through the msg service router, as x/gov does), the relayer registered for that chain, an account registered as relayer for another chain only, a plain account, a plain account signing a message that names the authority, the authority with the execution discarded afterwards (first message of a proposal whose later message fails), or the account that relayer registrations name; oracle = the request takes effect (visible through the keeper getters: client state and type, relayer list, rule list, latest height) iff the signer is the authority (the registered relayer for updates) and the payload is valid; a refused request leaves the tibc store byte-identical and the stored client untouched; create never succeeds on an existing name; upgrade never changes the client type; non-trivial = the same (message, name, payload) submitted by >=2 signer classes with different expected outcomes",
 		genC15, checkC15)
 }
